@@ -11,7 +11,8 @@ on that bit; adding dummy signals leaves the existing signals untouched and make
 exactly one signal when none overlapped before; the computed frame length is the smallest byte count
 containing all signals (never below the declared length unless forced); fitting to CAN FD gives the
 smallest permitted length not below it; compressing keeps every signal's width and byte order.
-(compress: no overlap, no gap, order kept, termination are proved for Motorola frames; Intel frames by the correspondence check.)
+(compress: no overlap, no gap, order kept, termination are proved here for Motorola frames and in Props/C16L.lean for Intel frames;
+frames with both byte orders are left alone, `compress_mixed_noop`.)
 -/
 namespace CanVerif.C16
 open CanVerif
